@@ -70,7 +70,9 @@ PROPS = {
                  "flags, key ids, next DH = g^x of a drawn exponent, TLV layout, disclosed-key field multiple of 20), fragments (canonical syntax, k<=n<=65535), query and whitespace tag versions = policy, instance tags, extra symmetric key at both ends. "
                  "Non-trivial: the case contained a complete AKE and a data message with sender key id >= 2 (after a rotation)."),
         "assumptions": COMMON_ASSUME,
+        "exhaustive_checks": ["C10fragsweep"],
         "tests": [
+            {"name": "TestProp_C10_FragSweep", "kind": "plain", "quick": {"shards": 8, "timeout": 600}, "thorough": {"shards": 8, "timeout": 3000}},
             {"name": "TestProp_C10_Observer", "quick": {"shards": 8, "checks": 60, "timeout": 400}, "thorough": {"shards": 16, "checks": 800, "timeout": 3000}},
             {"name": "TestProp_C10_Interop", "quick": {"shards": 8, "checks": 40, "timeout": 400}, "thorough": {"shards": 16, "checks": 600, "timeout": 3000}},
         ],
@@ -147,9 +149,8 @@ PROPS["C11"] = {
              "Relay: otr3 A and B each in its own session with a reference-party half of the relay (own key), SMP TLVs forwarded verbatim both ways, both victims answer; no Success ever, also with equal secrets. "
              "Non-trivial: rotations happened around the run or several runs back to back; relay: the run reached the final comparison/verification."),
     "assumptions": COMMON_ASSUME,
-    "exhaustive_checks": ["C10fragsweep", "C11short"],
+    "exhaustive_checks": ["C11short"],
     "tests": [
-        {"name": "TestProp_C10_FragSweep", "kind": "plain", "quick": {"shards": 8, "timeout": 600}, "thorough": {"shards": 8, "timeout": 3000}},
         {"name": "TestProp_C11_ShortValues", "kind": "plain", "quick": {"shards": 13, "timeout": 900}, "thorough": {"shards": 16, "timeout": 3000}},
         {"name": "TestProp_C11_Session", "quick": {"shards": 8, "checks": 12, "timeout": 400}, "thorough": {"shards": 16, "checks": 200, "timeout": 3000}},
         {"name": "TestProp_C11_Relay", "quick": {"shards": 8, "checks": 12, "timeout": 400}, "thorough": {"shards": 16, "checks": 200, "timeout": 3000}},
@@ -193,10 +194,11 @@ PROPS["C01"] = {
              "Sweep: honest handshake where message k is preceded by a copy with one byte ^01/^80/:=00/:=FF or truncated at every offset. "
              "Degenerate attacker (enumerated and sampled): an adversary without any exponent runs the exchange in either role with DH value 1, p-1, 0 or p+1, guessing the shared secret 1/p-1/0, optionally sending an in-range value after the refused one, against plaintext and encrypted victims."),
     "assumptions": COMMON_ASSUME,
-    "exhaustive_checks": ["C01stray", "C01restart", "C01sweep", "C01degenerate"],
+    "exhaustive_checks": ["C01stray", "C01restart", "C01faults", "C01sweep", "C01degenerate"],
     "tests": [
         {"name": "TestProp_C01_Stray", "kind": "plain", "quick": {"shards": 8, "timeout": 600}, "thorough": {"shards": 8, "timeout": 3000}},
         {"name": "TestProp_C01_Restart", "kind": "plain", "quick": {"shards": 4, "timeout": 600}, "thorough": {"shards": 4, "timeout": 3000}},
+        {"name": "TestProp_C01_Faults", "kind": "plain", "quick": {"shards": 8, "timeout": 600}, "thorough": {"shards": 8, "timeout": 3000}},
         {"name": "TestProp_C01_Attack", "quick": {"shards": 8, "checks": 100, "timeout": 500}, "thorough": {"shards": 16, "checks": 2500, "timeout": 3000}},
         {"name": "TestProp_C01_Sweep", "kind": "plain", "quick": {"shards": 8, "timeout": 500}, "thorough": {"shards": 16, "timeout": 3000}},
         {"name": "TestProp_C01_Degenerate", "kind": "plain", "quick": {"shards": 4, "timeout": 500}, "thorough": {"shards": 8, "timeout": 3000}},
@@ -399,7 +401,7 @@ _EXTRA = {
     "C08": " Added: C08faults - one party's randomness fails from read k on (k=0..14, persistent or one-shot, error or short read) during a handshake; secrets of an exchange the party has left must be gone, decided by presenting the refused final message once more on a healed source.",
     "C07": " Added: for Send under required encryption the trigger is repeated (1x quick, 2x thorough) at every point of every schedule.",
     "C12": " Added: C12sync - two real otr3 parties: every sequence of up to 3 (thorough: 4) steps over {start, answer asked-or-not, abort, deliver, lose} by either user, then AbortAuthentication and a fresh run by either user, which must succeed on both sides; a StartAuthenticate that fails for lack of randomness, idle or mid-run.",
-    "C01": " Added: C01stray - every point of a handshake (fresh or inside a running session) x either receiver x every message of a recorded earlier exchange, addressed as the receiver expects, then the final probe; C01restart - a session with traffic, a client restart of either side (same key and instance tag), a new exchange, either side speaking first.",
+    "C01": " Added: C01stray - every point of a handshake (fresh or inside a running session) x either receiver x every message of a recorded earlier exchange, addressed as the receiver expects, then the final probe; C01restart - a session with traffic, a client restart of either side (same key and instance tag), a new exchange, either side speaking first; C01faults - inside a running session one read of the victim's randomness source fails (read k = 0..11 from now, error or short read) while the attacker (own key, either role, writing the peer instance's tag) or the honest peer runs a further exchange with the victim: afterwards what each side sends must be readable for the party whose key and session it reports and for nobody else (the attacker tries to read one text of each side with the keys of its own exchanges); the attacker's exchanges against a v3 victim that knows its peer instance carry that instance's tag.",
     "C04": " Added: 'sk' arms a D-H key whose public value has a zero top byte; session configurations arm 0-3 such keys per party in a quarter of the cases; 'frag' changes the fragment size in mid-session (also to sizes too small for a header); texts may look like protocol traffic or consist of blanks; C04words samples words of 8-28 steps over just {send A, send B, deliver, deliver}.",
 }
 for _k, _v in _EXTRA.items():
